@@ -67,6 +67,9 @@ def parse_ref(text):
         neg = True
         s = s[1:]
     elif s[0] == '+':
+        # a single leading '+' is Go's spelling and not pinned down by the statement; a second sign is "doubled"
+        if len(s) > 1 and s[1] in '+-':
+            return 'reject'
         return None
     if s == "0":
         return 0
@@ -265,6 +268,20 @@ def run_unit(unit, drv, res, seed, tier):
                 # a term whose number is only a decimal point
                 t2 = t + "." + rng.choice(['s', 'ms', 'us', 'ns', 'm', 'h'])
             texts.append(t2)
+        # every sign prefix of 2-3 characters, and for every unit the largest whole number that fits, its
+        # successor and longer digit runs, alone and as the last of two terms, both signs
+        for sg in [a + b for a in '+-' for b in '+-'] + [a + b + c for a in '+-' for b in '+-' for c in '+-']:
+            for body in ('1s', '1h30m', '0', '1.5ms', '2562047h', '9223372036854775807ns'):
+                texts.append(sg + body)
+        for u, k in UNITS.items():
+            top = I64_MAX // k
+            for n in (top, top + 1, top + 2, top * 10, top * 10 + 9, 10 ** 18, 10 ** 19, 10 ** 20, 2 ** 63 - 1, 2 ** 63, 2 ** 64 - 1, 2 ** 64,
+                      10 ** 30, 10 ** 38, 2 ** 127, 10 ** 39, 10 ** 45, 10 ** 120):
+                for sg in ('', '-'):
+                    texts.append('%s%d%s' % (sg, n, u))
+                    texts.append('%s0s%d%s' % (sg, n, u))
+                    texts.append('%s%d.0%s' % (sg, n, u))
+                    texts.append('%s0.%d%s' % (sg, n, u))
         for t in texts:
             ref = parse_ref(t)
             if ref is None:
